@@ -10,7 +10,9 @@ Theorems: lean/SaVerif/Props/C46.lean.
 Real side: a real Session on a SQLite *file* plus a second, raw connection that
 updates / deletes / inserts rows and commits.  A history interleaves external
 writes with read / set / expire(obj[, attrs]) / expire_all / refresh(obj[, attrs]) /
-query [populate_existing] / flush / commit / rollback.
+query [populate_existing] / flush / commit / rollback, and with the application detaching a
+loaded instance (expunge) and handing it back later (add, or merge(load=False)) so that a
+loaded instance sits in a transaction that never touched the database.
 
 Direct oracle (independent of the Lean model; never compares with it): the harness
 keeps the truth (what the session's transaction can see: the other connection's
@@ -130,6 +132,7 @@ def _run_history(case):
     npk, af, eoc, ops = case["npk"], case["af"], case["eoc"], case["ops"]
     sess = Session(w.engine, autoflush=bool(af), expire_on_commit=bool(eoc))
     objs = {}
+    detached = {}
     outs = []
     problems = []
     # ---------------- reference shadow
@@ -341,6 +344,29 @@ def _run_history(case):
                         outs.append("d")
                     else:
                         outs.append("-")
+                elif kind == "dt":
+                    # the application keeps a loaded, unmodified instance while the Session lets go of it
+                    k = op[1]
+                    if k in objs and k not in detached and not inspect(objs[k]).modified:
+                        sess.expunge(objs[k])
+                        detached[k] = objs.pop(k)
+                        outs.append("d")
+                    else:
+                        outs.append("-")
+                elif kind == "at":
+                    # ... and hands it back: add(obj), or merge(obj, load=False)
+                    k, via_merge = op[1], op[2]
+                    key = inspect(T).identity_key_from_primary_key((k,))
+                    if k in detached and k not in objs and sess.identity_map.get(key) is None:
+                        o = detached.pop(k)
+                        if via_merge:
+                            o = sess.merge(o, load=False)
+                        else:
+                            sess.add(o)
+                        objs[k] = o
+                        outs.append("d")
+                    else:
+                        outs.append("-")
                 else:
                     raise ValueError(op)
             # ---- final state dump (session view of the rows through its own connection)
@@ -442,12 +468,23 @@ def gen_random(rng, tier):
             ops.append(("c",))
         elif r < 0.92:
             ops.append(("b",))
-        elif r < 0.96:
+        elif r < 0.935:
+            ops.append(("dt", k))
+        elif r < 0.95:
+            ops.append(("at", k, int(rng.random() < 0.5)))
+        elif r < 0.97:
             ops.append(("ed", k))
         else:
             v = fresh()
             ops.append(("ei", k, v))
             vals[k] = v
+    if rng.random() < 0.3:
+        # a loaded instance handed back to the Session in a transaction that does no SQL, a commit
+        # with nothing to flush, then the other connection writes
+        k, a = rng.randrange(npk), rng.randrange(NATTR)
+        motif = [("r", k, a), ("dt", k), ("c",), ("at", k, int(rng.random() < 0.5)), ("c",), ("es", k, a, fresh()), ("r", k, a)]
+        pos = rng.randrange(len(ops) + 1)
+        ops[pos:pos] = motif
     # read everything at the end: the reads are what the property is about
     for k in range(npk):
         for a in range(NATTR):
@@ -464,6 +501,7 @@ def small_scope(length):
     alpha = [
         ("es", 0, 0, 21), ("es", 0, 1, 22), ("s", 0, 0, 31), ("s", 0, 1, 32), ("x", 0, None), ("x", 0, [0]), ("x", 0, [1]),
         ("X",), ("f", 0, None), ("f", 0, [1]), ("q", True, None), ("q", False, None), ("r", 0, 0), ("r", 0, 1), ("F",), ("c",), ("b",), ("ed", 0),
+        ("dt", 0), ("at", 0, 0), ("at", 0, 1),
     ]
     for seq in itertools.product(alpha, repeat=length):
         yield prefix + list(seq) + [("r", 0, 0), ("r", 0, 1), ("r", 0, 2)]
@@ -516,7 +554,7 @@ def run(ctx, deep=False):
     ctx.rule = (
         "histories of external update/delete/insert (second connection, fresh values) interleaved with read/set/expire(obj[,attrs])/expire_all/"
         "refresh(obj[,attrs])/query[populate_existing][filter]/flush/commit/rollback on a real Session over a SQLite file, 1-3 rows x 3 attributes, "
-        "autoflush and expire_on_commit on/off; random (seeded) + all 2-op (and 8% quick / all thorough 3-op) sequences over an 18-letter one-row alphabet; "
+        "autoflush and expire_on_commit on/off; random (seeded) + all 2-op (and 8% quick / all thorough 3-op) sequences over an 21-letter one-row alphabet; "
         "non-trivial = at least one attribute read returned a value"
     )
     ctx.trusted.append("SQLite file database: no read snapshot (pysqlite), writers serialised; the other connection fails fast on a lock and the op is skipped on both sides")
